@@ -3,17 +3,17 @@
 SPECIFICATION Spec
 CONSTANTS
   Http10UnsizedCloses = FALSE
-  ChunkedFlagTruthy = FALSE
-  ChunkedSetsTE = FALSE
-  HeadStreamSuppressed = FALSE
-  EmptyBodyNoFlush = FALSE
-  HandlerConnHonored = FALSE
-  HeadReqBodyFramed = FALSE
+  ChunkedFlagTruthy = TRUE
+  ChunkedSetsTE = TRUE
+  HeadStreamSuppressed = TRUE
+  EmptyBodyNoFlush = TRUE
+  HandlerConnHonored = TRUE
+  HeadReqBodyFramed = TRUE
   HeadNoLenReusable = FALSE
   ConnectAware = FALSE
   Http10NoChunkedReq = FALSE
   Expect10Proceeds = FALSE
-  RefusedPrepareCleansWriter = FALSE
+  RefusedPrepareCleansWriter = TRUE
 INVARIANT FramingTruthfulButKnown
 INVARIANT ReceiverFollowsRfcButKnown
 INVARIANT CloseAgreeButKnown
